@@ -244,6 +244,7 @@ where B: Backend, OC: Cache<Result<AnySync, Arc<PdfError>>>, SC: Cache<Result<Ar
     let old = f.resolver();
     let mut olds: Vec<OldPage> = Vec::new();
     let mut built: Vec<PageBuilder> = Vec::new();
+    let mut failed_imports = 0u32;
     {
         let mut importer = Importer::new(f.resolver(), &mut builder.storage);
         for &pi in &case.pages {
@@ -256,7 +257,7 @@ where B: Backend, OC: Cache<Result<AnySync, Arc<PdfError>>>, SC: Cache<Result<Ar
             entry("idle");
             match r {
                 Ok(Ok(pb)) => { bump(c, "clone_page_ok"); built.push(pb); olds.push(OldPage { idx: pi, pref: page.get_ref().get_inner(), ops }); }
-                Ok(Err(e)) => { bump(c, &format!("clone_page_err:{}", err_kind(&e))); }
+                Ok(Err(e)) => { failed_imports += 1; bump(c, &format!("clone_page_err:{}", err_kind(&e))); }
                 Err(p) => { res.viol.push(Viol { class: p.signature(), locus: String::new(), what: format!("PageBuilder::clone_page panicked: {}", p.describe()) }); return; }
             }
         }
@@ -267,7 +268,14 @@ where B: Backend, OC: Cache<Result<AnySync, Arc<PdfError>>>, SC: Cache<Result<Ar
     entry("idle");
     let bytes = match r {
         Ok(Ok(b)) => { bump(c, "build_ok"); b }
-        Ok(Err(e)) => { bump(c, &format!("build_err:{}", err_kind(&e))); return; }
+        Ok(Err(e)) => {
+            // the pages in `olds` were imported successfully, yet the new document cannot be saved
+            let when = if failed_imports == 0 { "every import succeeded" } else { "after a failed import" };
+            bump(c, &format!("build_err({}):{}", when, err_kind(&e)));
+            res.viol.push(Viol { class: format!("save-fails|{}|{}", if failed_imports == 0 { "all-imports-ok" } else { "after-failed-import" }, err_kind(&e)), locus: String::new(),
+                what: format!("{} page(s) were imported successfully ({} import(s) failed) but PdfBuilder::build returns {:?}", olds.len(), failed_imports, e) });
+            return;
+        }
         Err(p) => { res.viol.push(Viol { class: p.signature(), locus: String::new(), what: format!("PdfBuilder::build panicked: {}", p.describe()) }); return; }
     };
     res.built_pages = olds.len() as u64;
@@ -320,7 +328,14 @@ fn sig_for(labels: &[String], v: &Viol) -> String {
     let last = path.rsplit('.').next().unwrap_or("").trim_end_matches("[]");
     match v.class.as_str() {
         "copied-twice" | "conflated" => format!("C20|{}|{}", v.class, first),
-        "resource-differs" => format!("C20|resource-differs|{}|{}:{}", first, if last == first { "" } else { last }, kind),
+        // where the difference sits is named by the last two keys of the path (e.g. FontFile2.Length1), not by the resource
+        // category the walk started from: the same defect reached through /Font or through /ExtGState is one finding
+        "resource-differs" => {
+            let comps: Vec<&str> = path.split('.').filter(|c| !c.is_empty()).map(|c| c.trim_end_matches("[]")).collect();
+            let tail = if comps.len() >= 2 { format!("{}.{}", comps[comps.len() - 2], comps[comps.len() - 1]) } else { first.to_string() };
+            let _ = last;
+            format!("C20|resource-differs|{}:{}", tail, kind)
+        }
         _ => format!("C20|{}", v.key()),
     }
 }
